@@ -1,0 +1,60 @@
+//go:build verif
+
+package s2
+
+// This file is compiled only with the build tag "verif". It exports thin
+// wrappers around unexported functions so that the external verification
+// harness can compare them with its formal model. It adds no behaviour.
+
+import (
+	"github.com/golang/geo/r3"
+)
+
+// VerifCellIDFromFaceIJ exposes cellIDFromFaceIJ.
+func VerifCellIDFromFaceIJ(f, i, j int) CellID { return cellIDFromFaceIJ(f, i, j) }
+
+// VerifCellIDFromFaceIJWrap exposes cellIDFromFaceIJWrap.
+func VerifCellIDFromFaceIJWrap(f, i, j int) CellID { return cellIDFromFaceIJWrap(f, i, j) }
+
+// VerifFaceIJOrientation exposes CellID.faceIJOrientation.
+func VerifFaceIJOrientation(ci CellID) (f, i, j, o int) { return ci.faceIJOrientation() }
+
+// VerifFaceSiTi exposes CellID.faceSiTi.
+func VerifFaceSiTi(ci CellID) (int, uint32, uint32) { return ci.faceSiTi() }
+
+// VerifCenterFaceSiTi exposes CellID.centerFaceSiTi.
+func VerifCenterFaceSiTi(ci CellID) (int, int, int) { return ci.centerFaceSiTi() }
+
+// VerifLsb exposes CellID.lsb.
+func VerifLsb(ci CellID) uint64 { return ci.lsb() }
+
+// VerifIsFace exposes CellID.isFace.
+func VerifIsFace(ci CellID) bool { return ci.isFace() }
+
+// VerifImmediateParent exposes CellID.immediateParent.
+func VerifImmediateParent(ci CellID) CellID { return ci.immediateParent() }
+
+// VerifDistanceFromBegin exposes CellID.distanceFromBegin.
+func VerifDistanceFromBegin(ci CellID) int64 { return ci.distanceFromBegin() }
+
+// VerifLookupTables returns copies of lookupPos and lookupIJ.
+func VerifLookupTables() (pos, ij []int) {
+	return append([]int(nil), lookupPos[:]...), append([]int(nil), lookupIJ[:]...)
+}
+
+// VerifAreSiblings exposes areSiblings.
+func VerifAreSiblings(a, b, c, d CellID) bool { return areSiblings(a, b, c, d) }
+
+// VerifSTUV exposes the scalar coordinate transforms.
+func VerifStToUV(s float64) float64                         { return stToUV(s) }
+func VerifUVToST(u float64) float64                         { return uvToST(u) }
+func VerifSiTiToST(si uint32) float64                       { return siTiToST(si) }
+func VerifStToSiTi(s float64) uint32                        { return stToSiTi(s) }
+func VerifStToIJ(s float64) int                             { return stToIJ(s) }
+func VerifIJToSTMin(i int) float64                          { return ijToSTMin(i) }
+func VerifFace(r r3.Vector) int                             { return face(r) }
+func VerifXYZToFaceUV(r r3.Vector) (int, float64, float64)  { return xyzToFaceUV(r) }
+func VerifFaceUVToXYZ(f int, u, v float64) r3.Vector        { return faceUVToXYZ(f, u, v) }
+func VerifXYZToFaceSiTi(p Point) (int, uint32, uint32, int) { return xyzToFaceSiTi(p) }
+func VerifFaceSiTiToXYZ(f int, si, ti uint32) Point         { return faceSiTiToXYZ(f, si, ti) }
+func VerifCellIDFromPoint(p Point) CellID                   { return cellIDFromPoint(p) }
